@@ -166,6 +166,23 @@ impl World {
                 Ok((id, addr)) => self.socks.push(Sock::L { id, addr }),
                 Err(_) => return false,
             },
+            // a listener configured with receive_broadcasts: on Linux a different receive path
+            // (recvmsg + packet info + ingress address filter, socket bound to the device)
+            "B" if rest.is_empty() => {
+                use message_io::adapters::udp::UdpListenConfig;
+                use message_io::network::TransportListen;
+                let cfg = UdpListenConfig::default().with_receive_broadcasts();
+                let addr: SocketAddr = self.any_addr().parse().unwrap();
+                match self.ctl.listen_with(TransportListen::Udp(cfg), addr) {
+                    Ok((id, bound)) => {
+                        // bound to the unspecified address: peers reach it through the loopback address
+                        let reach = SocketAddr::new(addr.ip(), bound.port());
+                        self.socks.push(Sock::L { id, addr: reach });
+                        self.tags.insert("broadcast-listener");
+                    }
+                    Err(_) => return false,
+                }
+            }
             "R" if rest.is_empty() => {
                 let sock = match UdpSocket::bind(self.any_addr()) {
                     Ok(s) => s,
@@ -441,6 +458,14 @@ fn run_fl(kind: &str) -> (String, String, String) {
     (imp.into(), oracle, "guard".into())
 }
 
+/// can this process create a listener with receive_broadcasts (needs SO_BINDTODEVICE)?
+fn broadcast_listener_available() -> bool {
+    use message_io::adapters::udp::UdpListenConfig;
+    use message_io::network::TransportListen;
+    let (ctl, _p) = network::split();
+    ctl.listen_with(TransportListen::Udp(UdpListenConfig::default().with_receive_broadcasts()), "127.0.0.1:0".parse::<SocketAddr>().unwrap()).is_ok()
+}
+
 fn pick_size(rng: &mut Rng, v6: bool) -> usize {
     let max = network::Transport::Udp.max_message_size();
     if v6 && rng.chance(1, 4) {
@@ -460,7 +485,7 @@ fn pick_size(rng: &mut Rng, v6: bool) -> usize {
 
 /// one random world: the generator simulates deliveries so that replies are only asked for senders
 /// that have been heard, and paces the sends so that no receive buffer can overflow
-fn gen_case(rng: &mut Rng, v6: bool) -> String {
+fn gen_case(rng: &mut Rng, v6: bool, bcast: bool) -> String {
     #[derive(Clone, Copy, PartialEq)]
     enum K {
         L,
@@ -473,7 +498,7 @@ fn gen_case(rng: &mut Rng, v6: bool) -> String {
     let nl = rng.range(1, 2);
     for _ in 0..nl {
         kinds.push(K::L);
-        ops.push("L".into());
+        ops.push(if bcast && rng.chance(1, 3) { "B".into() } else { "L".into() });
     }
     for _ in 0..rng.range(1, 3) {
         kinds.push(K::R);
@@ -649,9 +674,22 @@ fn main() {
                 emit(&mut out, &format!("udp fl {}", k), &imp, &oracle, &tags);
             }
             let mut rng = Rng::new(seed);
+            let bcast = broadcast_listener_available();
+            if bcast {
+                // the receive_broadcasts listener (its own receive path): every size class, replies, IPv6
+                for c in [
+                    "udp e2e B R C0 x1>0:5:1 s2:7:2 x1>0:0:3 w f0>1:3:3 f0>2:0:4 r0>1:65507:5 w x1>0:65507:6 w s2:65507:7 w s2:65508:8 w",
+                    "udp e2e B R R x1>0:3:1 x2>0:3:2 x1>0:1473:3 x2>0:9000:4 w r0>1:5:7 r0>2:5:8 w",
+                    "udp e2e v6 B R C0 x1>0:5:1 s2:65507:2 w x1>0:65520:3 w f0>1:65507:4 w",
+                ] {
+                    let toks: Vec<&str> = c.split(' ').skip(2).collect();
+                    let (imp, oracle, tags) = run_case(&toks);
+                    emit(&mut out, c, &imp, &oracle, &format!("{},corpus", tags));
+                }
+            }
             for _ in 0..n {
                 let v6 = rng.chance(1, 3);
-                let case = gen_case(&mut rng, v6);
+                let case = gen_case(&mut rng, v6, bcast);
                 let toks: Vec<&str> = case.split(' ').skip(2).collect();
                 let (imp, oracle, tags) = run_case(&toks);
                 emit(&mut out, &case, &imp, &oracle, &tags);
